@@ -421,10 +421,10 @@ def cases(tier, seed):
                     'ensemble-linear-combination-upper-bound', 'ensemble-linear-combination-bounded',
                     'calibrated-lattice-output-calibration', 'calibrated-lattice-missing')
     out.append(dict(name=m[0], fn='case_model', params=dict(name=m[0], model=m[0], tier=tier, required=not hard, split=False,
-                                                            timeout=(40 if hard else 90) if tier == 'quick' else 300),
-                    cap=1800, required=not hard))
+                                                            timeout=(40 if hard else 90) if tier == 'quick' else 200),
+                    cap=1500, required=not hard))
     if tier == 'thorough' and hard:
       nm = m[0] + '-by-pieces'
-      out.append(dict(name=nm, fn='case_model', params=dict(name=nm, model=m[0], tier=tier, required=False, split=True, timeout=120),
-                      cap=7200, required=False))
+      out.append(dict(name=nm, fn='case_model', params=dict(name=nm, model=m[0], tier=tier, required=False, split=True, timeout=60),
+                      cap=2400, required=False))
   return out
